@@ -262,10 +262,12 @@ def task_script(k: int, variant: str) -> list[str]:
     return steps + ["ok:k3=1"]
 
 
-def make_spec(k, variant, ntasks, pos, surround):
+def make_spec(k, variant, ntasks, pos, surround, alias=False):
     tasks = [["ok"] for _ in range(ntasks)]
     tasks[pos] = task_script(k, variant)
     st = {"ref": "F", "reqs": [], "tasks": tasks}
+    if alias:
+        st["alias"] = True      # the tasks are referenced through a registry alias
     stages = [st]
     if surround:
         stages = [{"ref": "A", "reqs": [], "tasks": [["ok:k4=4"]]}, dict(st, reqs=["A"]), {"ref": "Z", "reqs": ["F"], "tasks": [["ok"]]}]
@@ -293,9 +295,10 @@ def engine_cases(ctx) -> list[dict]:
                 if not thorough and (nt, pos) != (1, 0) and (k + nt + pos) % 3 != 0 and k != FOREVER:
                     continue
                 surround = (nt + pos + (0 if k == FOREVER else k)) % 2 == 1
-                spec = make_spec(k, variant, nt, pos, surround)
+                alias = (k + nt + pos + len(variant)) % 3 == 0
+                spec = make_spec(k, variant, nt, pos, surround, alias=alias)
                 steps = 70 if k == FOREVER else 60 + 3 * k
-                meta = {"k": k, "variant": variant, "ntasks": nt, "pos": pos, "surround": surround}
+                meta = {"k": k, "variant": variant, "ntasks": nt, "pos": pos, "surround": surround, "alias": alias}
                 add(kind="policy", policy="fifo", spec=spec, name=f"trans_{variant}", max_steps=steps, c14=meta)
                 for _ in range(2 if thorough else 1):
                     add(kind="policy", policy="random", spec=spec, name=f"trans_{variant}", max_steps=steps, c14=meta)
